@@ -132,6 +132,9 @@ def configs(tier):
                 elif 'discrete' in entry:
                     c['tmax'] = 'steps:2'
                 out.append(c)
+    # discrete_SIR with extra arguments for the user's transmission test
+    for full in (False, True):
+        out.append(dict(entry='discrete_SIR', graph='P3', I0=[1], R0=[], full=full, tmax='steps:2', fxn_args=True, tags=['P3', 'full' if full else 'plain', 'fxn-args']))
     # a concrete non-integer start time (the time axis of the discrete-time simulators is tmin, tmin+1, ... as doubles)
     for entry in ('discrete_SIR', 'basic_discrete_SIR', 'basic_discrete_SIS'):
         for full in (False, True):
